@@ -1587,12 +1587,30 @@ class Signature:
                     if isinstance(new_tv_maps, CanAssignError):
                         return new_tv_maps
                     tv_maps += new_tv_maps
-                    new_tv_maps = can_assign_var_keyword(
-                        my_param, kwargs_annotation, ctx
-                    )
-                    if isinstance(new_tv_maps, CanAssignError):
-                        return new_tv_maps
-                    tv_maps += new_tv_maps
+                    their_kwonly = other.parameters.get(my_param.name)
+                    if (
+                        their_kwonly is not None
+                        and their_kwonly.kind is ParameterKind.KEYWORD_ONLY
+                    ):
+                        # The keyword lands on their keyword-only parameter of
+                        # the same name, not in **kwargs.
+                        tv_map = their_kwonly.get_annotation().can_assign(
+                            my_annotation, ctx
+                        )
+                        if isinstance(tv_map, CanAssignError):
+                            return CanAssignError(
+                                f"type of parameter {my_param.name!r} is"
+                                " incompatible",
+                                [tv_map],
+                            )
+                        tv_maps.append(tv_map)
+                    else:
+                        new_tv_maps = can_assign_var_keyword(
+                            my_param, kwargs_annotation, ctx
+                        )
+                        if isinstance(new_tv_maps, CanAssignError):
+                            return new_tv_maps
+                        tv_maps += new_tv_maps
                 else:
                     return CanAssignError(
                         f"parameter {my_param.name!r} is not accepted"
